@@ -89,25 +89,49 @@ def phaseIdxOfKey (fs : List (Nat × ObjFacts)) (ks : String) : Option Nat :=
   (fs.find? fun f => keyStr f.2.key == ks).map (·.1)
 
 /-- does the step schedule any third-party interference? (then only the trace diff judges it) -/
-def quiet (st : JStep) : Bool := (st.env.getD []).isEmpty && (st.setEnv.getD []).isEmpty
+def quiet (st : JStep) : Bool := (st.env.getD []).isEmpty && (st.setEnv.getD []).isEmpty && st.wfault.isNone
+
+/-- a write on a managed object that the API refused: `A` / `M` events carry `!<class>`, a `D` event
+a result other than `ok` / `NotFound` (gone already: nothing to do). -/
+def refusedWrite (e : String) : Bool :=
+  let toks := e.splitOn " "
+  match toks.getD 0 "" with
+  | "A" => (toks.getD 2 "").startsWith "!"
+  | "M" => (toks.getD 2 "").startsWith "!"
+  | "D" => toks.getLastD "" != "ok" && toks.getLastD "" != "NotFound"
+  | _ => false
+
+/-- the ObjectSet lists the same object twice: same group (one in the harness universe), kind,
+namespace and name — whatever API version each entry is written in. -/
+def listsObjectTwice (o : OSet) : Bool :=
+  let ids := (o.phases.flatMap (·.objs)).map fun p => (p.kind, p.ns, p.name)
+  ids.eraseDups.length != ids.length
 
 inductive Which where
   | c02 | c03 | c04 | c05 | c06 | c09 | c11 | c15
+  | c01     -- (S1B) collision protection on the controller-level stream
   deriving DecidableEq
 
 /-- C11 on the controller-level stream: a namespaced ObjectSet / same-cluster ObjectSetPhase never
 writes outside its namespace or to cluster-scoped kinds (any step, rollout and teardown). -/
-def judgeNs (scn : SysCommon.Scn) (out : StepOut) : Option String := Id.run do
+def judgeNs (scn : SysCommon.Scn) (out : StepOut) (scope : String → Scope := scopeOf) : Option String := Id.run do
   if scn.cluster then return none
   for e in out.events do
     match (eventKey e).splitOn "/" with
-    | [kind, ns, _] => if ns != "ns1" || scopeOf kind != .namespaced then return some s!"bad write-outside-owner-namespace {e}"
+    | [kind, ns, _] => if ns != "ns1" || scope kind != .namespaced then return some s!"bad write-outside-owner-namespace {e}"
     | _ => return some s!"bad unparsable-event {e}"
   return none
 
 /-- C05 for a pass of the ObjectSetPhase controller: deletes only what the phase object controls. -/
 def judgePhaseDeletes (scn : SysCommon.Scn) (cfg : Cfg) (st : JStep) (pre : Sys) (out : StepOut) : Option String := Id.run do
   let some p := pre.w.phases st.set | return none
+  -- (S1B) a phase object that is being deleted with orphan propagation (the API server put the
+  -- "orphan" finalizer on it) deletes nothing at all and de-references nothing — whatever third
+  -- parties do to the managed objects meanwhile (they cannot take the finalizer away in this step)
+  if p.deleting && p.finOrphan then
+    match out.events.find? (fun e => eventVerb e == "D" || eventVerb e == "M") with
+    | some e => return some s!"bad write-during-orphan-teardown-of-phase-object {e} ({p.name} carries the orphan finalizer)"
+    | none => pure ()
   if !quiet st then return none
   let ow := Pko.Model.Remote.phaseOwner p (setKindOf scn) (nsOf scn)
   for e in out.events do
@@ -147,9 +171,16 @@ def judgePhaseStep (scn : SysCommon.Scn) (cfg : Cfg) (st : JStep) (pre : Sys) (o
     if !keys.contains (eventKey e) then return some s!"bad phase-writes-unlisted-object {e}"
     if p.paused && !p.deleting then return some s!"bad phase-write-while-paused {e}"
     if !p.deleting && eventVerb e != "A" then return some s!"bad non-apply-write-in-phase-rollout {e}"
-  match judgeNs scn out with
+  match judgeNs scn out cfg.scope with
   | some b => return some b
   | none => pure ()
+  -- an object whose write the API refused was not brought to its desired state in this pass
+  if !p.deleting then
+    match out.events.find? (fun e => eventVerb e == "A" && refusedWrite e) with
+    | some e =>
+      if out.phaseEvents.any fun se => sOk se && hasCond (sConds se) "Available" "True" then
+        return some s!"bad phase-available-after-refused-write {e}"
+    | none => pure ()
   -- (a deleting phase re-writes its last recorded conditions unchanged: not a claim about this pass)
   -- (third-party operations inside the step: only the trace diff judges it)
   for se in (if p.deleting || !quiet st then [] else out.phaseEvents) do
@@ -160,6 +191,100 @@ def judgePhaseStep (scn : SysCommon.Scn) (cfg : Cfg) (st : JStep) (pre : Sys) (o
         | some c => if sureFail c then return some s!"bad phase-available-with-failing-object {o.name}"
   return none
 
+
+/-! ### (S1B) the adoption basis: status.remotePhases versus the phase objects that exist -/
+
+/-- name of the phase object created by a `C <kind>/<name> ok` event of the pass, if it is one. -/
+def createdPhase (pe : String) : Option String :=
+  let toks := pe.splitOn " "
+  if toks.getD 0 "" == "C" && toks.getD 2 "" == "ok" then some (((toks.getD 1 "").splitOn "/").getLastD "") else none
+
+/-- C15 / C01: adoption decisions of the NEXT revision recognise the objects of a delegated phase
+by the (name, uid) pairs in status.remotePhases of this revision (`isControlledByPreviousRevision`),
+and a controller reference carries the uid of the phase object that EXISTS.  So the status written
+by a pass that had the phase object at hand must name it under its current uid:
+
+* a pass that CREATED the phase object (it was deleted by somebody and is re-created, or is new):
+  the new object's uid is fresh, hence none of the uids recorded for this name before the pass;
+* a pass that FOUND the phase object — it exists before the pass and the pass got as far as this
+  phase: the reported Available is True (every phase was visited) or names a failing phase at or
+  after this one (phases are visited in order).
+
+Judged on the final status update of a quiet pass of an ObjectSet that has its revision (a pass
+that assigns the revision writes the status twice). -/
+def judgeRemoteUids (o : OSet) (st : JStep) (pre : Sys) (out : StepOut) : Option String := Id.run do
+  if !quiet st || o.revision == 0 then return none
+  let some se := out.setEvents.reverse.find? (fun se => sOk se && sName se == o.name) | return none
+  let rp := sRp se
+  let cs := sConds se
+  for (ph, i) in o.phases.zipIdx do
+    if ph.cls != "" then
+      let nm := o.name ++ "-" ++ ph.name
+      if out.phaseEvents.any (fun pe => createdPhase pe == some nm) then
+        for r in o.remotePhases do
+          if r.1 == nm && rp.contains s!"{nm}:{r.2}" then
+            return some s!"bad recreated-phase-object-reported-under-stale-uid {nm} (created in this pass, status.remotePhases still says {r.2}: [{",".intercalate rp}])"
+      else
+        match pre.w.phases nm with
+        | none => pure ()
+        | some po =>
+          let reached := hasCond cs "Available" "True" ||
+            (match cs.find? (fun c => c.1 == "Available" && c.2.2.1 == "ProbeFailure") with
+             | some c => (match o.phases.zipIdx.find? (fun x => x.1.name == c.2.2.2.2) with
+                          | some x => decide (x.2 ≥ i) | none => false)
+             | none => false)
+          if reached && po.ctrlName == o.name && po.ctrlUID == o.uid && !rp.contains s!"{nm}:{po.uid}" then
+            return some s!"bad phase-object-not-reported-under-current-uid {nm} (exists as {po.uid}, the pass reached the phase; status.remotePhases: [{",".intercalate rp}])"
+  return none
+
+/-- "adoption permitted", written out from C01's sentence (as in `Pko.Drv.C01`). -/
+def permitted (st : Strategy) (ow : Owner) (force : Bool) (o : Obj) (prev : List Prev) (cp : CP) : Bool :=
+  let eff : CP := if force || o.pkgLabel == "package-operator" then .none else cp
+  decide (revNum o.rev ≤ ow.rev) &&
+  (eff == .none || (eff == .ifNoController && !hasController st o) ||
+   (controlledByPrevious st o prev && decide (revNum o.rev < ow.rev)))
+
+/-- the declared previous revisions with their delegated phases — as RECORDED (status.remotePhases)
+or as they EXIST (the phase objects under the revision's phase names that it controls). -/
+def prevsOf (pre : Sys) (setKind : String) (names : List String) (current : Bool) : List Prev :=
+  names.map fun n => match pre.sets n with
+    | some p =>
+      let cur := p.phases.filterMap fun ph =>
+        if ph.cls == "" then none
+        else match pre.w.phases (p.name ++ "-" ++ ph.name) with
+          | some po => if po.ctrlName == p.name && po.ctrlUID == p.uid then some (po.name, po.uid) else none
+          | none => none
+      { kind := p.kind, name := p.name, uid := p.uid, remotes := if current then cur else p.remotePhases }
+    | none => { kind := setKind, name := "", uid := "", remotes := [] }
+
+/-- is there a listed object whose state before the pass justifies a refusal
+(foreign, revision readable and not newer, adoption not permitted)? -/
+def refusalJustified (cfg : Cfg) (ow : Owner) (prev : List Prev) (objs : List PObj) (pre : Sys) : Bool :=
+  objs.any fun p => match pre.w.store.get (keyOf cfg ow p) with
+    | some cur => !isController cfg.st (ow.ref true) cur && cur.rev != .garbage &&
+                  decide (revNum cur.rev ≤ ow.rev) && !permitted cfg.st ow cfg.force cur prev p.cp
+    | none => false
+
+/-- C01 on the controller-level stream, "a permitted adoption is never refused": a reported
+CollisionDetected needs a listed object whose adoption is NOT permitted — judged against the
+previous revisions' phase objects as recorded AND as they exist (a refusal neither reading
+justifies is spurious). -/
+def judgeCollision (cfg : Cfg) (ow : Owner) (objs : List PObj) (previous : List String) (setKind : String)
+    (pre : Sys) (statusEvents : List String) (name : String) : Option String := Id.run do
+  let some se := statusEvents.reverse.find? (fun se => sOk se && sName se == name) | return none
+  if !((sConds se).any fun c => c.1 == "Available" && c.2.2.1 == "CollisionDetected") then return none
+  if refusalJustified cfg ow (prevsOf pre setKind previous false) objs pre then return none
+  if refusalJustified cfg ow (prevsOf pre setKind previous true) objs pre then return none
+  return some s!"bad spurious-collision {name} (no listed object whose adoption is not permitted)"
+
+/-- C01 for a pass of the ObjectSetPhase controller. -/
+def judgePhaseCollision (scn : SysCommon.Scn) (cfg : Cfg) (st : JStep) (pre : Sys) (out : StepOut) : Option String := Id.run do
+  let some p := pre.w.phases st.set | return none
+  if !quiet st || p.deleting || p.paused then return none
+  let ow := Pko.Model.Remote.phaseOwner p (setKindOf scn) (nsOf scn)
+  let keys := p.objs.map (keyOf cfg ow)
+  if keys.eraseDups.length != keys.length then return none
+  judgeCollision cfg ow p.objs p.previous (setKindOf scn) pre out.phaseEvents p.name
 
 /-- The ObjectSet as the property sees it: every phase lists its inline objects AND the objects of
 every ObjectSlice that ever belonged to it in the spec — whether or not the slice still exists. -/
@@ -175,7 +300,28 @@ def judge (which : Which) (scn : SysCommon.Scn) (cfg : Cfg) (st : JStep) (pre : 
   let tearing := o.deleting || o.lifecycle == .archived
   let dupKeys := (fs.map (·.2.key)).eraseDups.length != fs.length
   match which with
-  | .c11 => return judgeNs scn out
+  | .c11 =>
+    -- (the scope of a kind is the REST mapper's answer at the time of the pass: `cfg` is `cfgAt`)
+    match judgeNs scn out cfg.scope with
+    | some b => return some b
+    | none => pure ()
+    -- an ObjectSet listing the same object twice writes none of its objects and reports PreflightError
+    if listsObjectTwice o && !tearing && !archivedDone then
+      match out.events.head? with
+      | some e => return some s!"bad write-by-objectset-listing-an-object-twice {e}"
+      | none => pure ()
+      if out.setEvents.any fun se => sOk se && hasCond (sConds se) "Available" "True" then
+        return some "bad available-true-for-objectset-listing-an-object-twice"
+      if out.res == "ok" then return some "bad duplicate-object-not-reported-as-preflight-error"
+    return none
+  | .c01 =>
+    -- (S1B) the adoption basis handed to the next revision + no spurious refusal by this one
+    match judgeRemoteUids o st pre out with
+    | some b => return some b
+    | none => pure ()
+    -- (the revision may be assigned in this very pass: only a revision known before the pass is compared)
+    if tearing || archivedDone || !quiet st || dupKeys || o.lifecycle == .paused || o.revision == 0 then return none
+    return judgeCollision cfg o.owner (o.phases.flatMap fun ph => if ph.cls == "" then ph.objs else []) o.previous o.kind pre out.setEvents o.name
   | .c02 =>
     -- every apply of the pass, judged against the object's state before the pass
     if !quiet st || dupKeys then return none
@@ -254,8 +400,33 @@ def judge (which : Which) (scn : SysCommon.Scn) (cfg : Cfg) (st : JStep) (pre : 
             if po.uid == r.2 && po.ctrlName == o.name && po.ctrlUID == o.uid && !rp.contains s!"{r.1}:{r.2}" then
               return some s!"bad live-phase-object-dropped-from-remotePhases {r.1} (exists, controlled by {o.name}, was reported before; status now lists [{",".intercalate rp}])"
           | none => pure ()
+    -- (S1B) … and names every phase object the pass had at hand under its CURRENT uid
+    match judgeRemoteUids o st pre out with
+    | some b => return some b
+    | none => pure ()
     return none
   | .c03 =>
+    -- a pass in which the write of an object was refused by the API (any error class) has not seen
+    -- that object present and passing: it writes nothing in later phases and does not report
+    -- Available=True (whatever third parties do in the step)
+    if !tearing && !archivedDone && !dupKeys then
+      for e in out.events do
+        if eventVerb e == "A" && refusedWrite e then
+          match phaseIdxOfKey fs (eventKey e) with
+          | some j =>
+            for e2 in out.events do
+              match phaseIdxOfKey fs (eventKey e2) with
+              | some j2 => if j2 > j then return some s!"bad write-in-phase-after-refused-write {e2} refused={e}"
+              | none => pure ()
+            for pe in out.phaseEvents do
+              let nm := (((pe.splitOn " ").getD 1 "").splitOn "/").getLastD ""
+              match o.phases.zipIdx.find? (fun (ph, _) => ph.cls != "" && o.name ++ "-" ++ ph.name == nm) with
+              | some (_, j2) => if j2 > j && (pe.startsWith "C " || pe.startsWith "P ") then
+                  return some s!"bad delegated-phase-written-after-refused-write {pe} refused={e}"
+              | none => pure ()
+            if out.setEvents.any fun se => sOk se && hasCond (sConds se) "Available" "True" then
+              return some s!"bad available-true-after-refused-write {e}"
+          | none => pure ()
     if tearing || archivedDone || !quiet st || dupKeys then return none
     -- first phase holding an object that is absent or failing in the pre-state
     -- a delegated phase counts as failing unless its phase object exists, needs no pause flip and
@@ -341,6 +512,19 @@ def judge (which : Which) (scn : SysCommon.Scn) (cfg : Cfg) (st : JStep) (pre : 
     if archivedDone then
       if !out.events.isEmpty || !out.setEvents.isEmpty then return some "bad reconciled-after-archival-completed"
       return none
+    -- The STORED object: a status update that goes through replaces the stored status, so the events
+    -- tell what is stored after the pass.  What was stored before the k-th write on the ObjectSet is
+    -- the pre-state plus the third-party status writes scheduled up to that write (the store getting
+    -- ahead of the pass's read: `SetEnv` op "status").
+    let statusOps := if st.wfault.isSome then [] else (st.setEnv.getD []).filter fun e => e.op == "status" && e.set == o.name
+    for (se, k) in out.setEvents.zipIdx do
+      if sOk se && sName se == o.name then
+        let cs := sConds se
+        let ahead := statusOps.filter (·.at ≤ k)
+        if (condTrue o.conds "Succeeded" || ahead.any (·.value != "Archived")) && !hasCond cs "Succeeded" "True" then
+          return some s!"bad succeeded-withdrawn-from-stored-object (write {k} on the ObjectSet stores conds=[{",".intercalate (cs.map fun c => c.1 ++ "=" ++ c.2.1)}])"
+        if ahead.any (·.value == "Archived") then
+          return some s!"bad stored-status-overwritten-after-archival-completed (write {k} on the ObjectSet stores conds=[{",".intercalate (cs.map fun c => c.1 ++ "=" ++ c.2.1)}] co=[{",".intercalate (sCo se)}])"
     for se in out.setEvents do
       if sOk se then
         let cs := sConds se
@@ -410,23 +594,33 @@ def monitor (which : Which) (s : SysCommon.Scn) (out : String) : String := Id.ru
   let mut sys := initSys s
   let mut i := 0
   for (st, tok) in steps.zip toks do
-    let (sys', mtok) := stepModel s cfg st sys
+    let (sys', mtok) := stepModelX s cfg st sys
+    -- the configuration of THIS step: the REST mapper as it answers now (`rescope` steps)
+    let cfgS := cfgAt cfg sys
+    let pcfgS := cfgAt (phaseCfgOf s) sys
     if st.op == "reconcile" then
       match parseStep tok with
       | none => return s!"bad unparsable-step {i} {tok.take 40}"
       | some so =>
-        match judge which s cfg st sys so with
+        match judge which s cfgS st sys so with
         | some b => return s!"{b} step={i}"
         | none => pure ()
     if st.op == "phase" && (which == .c15 || which == .c11 || which == .c05 || which == .c02) then
       match parseStep tok with
       | none => return s!"bad unparsable-step {i} {tok.take 40}"
       | some so =>
-        let r := if which == .c11 then judgeNs s so
-                 else if which == .c02 then judgePhaseRevisions s (phaseCfgOf s) st sys so
-                 else if which == .c05 then judgePhaseDeletes s (phaseCfgOf s) st sys so
-                 else judgePhaseStep s (phaseCfgOf s) st sys so
+        let r := if which == .c11 then judgeNs s so pcfgS.scope
+                 else if which == .c02 then judgePhaseRevisions s pcfgS st sys so
+                 else if which == .c05 then judgePhaseDeletes s pcfgS st sys so
+                 else judgePhaseStep s pcfgS st sys so
         match r with
+        | some b => return s!"{b} step={i}"
+        | none => pure ()
+    if st.op == "phase" && which == .c01 then     -- (S1B)
+      match parseStep tok with
+      | none => return s!"bad unparsable-step {i} {tok.take 40}"
+      | some so =>
+        match judgePhaseCollision s (phaseCfgOf s) st sys so with
         | some b => return s!"{b} step={i}"
         | none => pure ()
     if mtok != tok then return "ok"      -- diverged: later pre-states are not the implementation's
